@@ -346,7 +346,17 @@ def r6(ctx, R="C13-R6"):
     ctx.floor(R, 2)
 
 
+def r7(ctx):
+    R = "C13-R7"
+    ctx.rule(R, "socket ids and initial sequence numbers are monotone counters (SocketTable::next_id +1, Kernel::tcp_isn +k): a reclaimed "
+                "entry's fd is never handed out again, so a stale handle cannot alias a new socket")
+    counter_rule(ctx, R, "turmoil_net::kernel::socket::SocketTable::next_id", step=1)
+    counter_rule(ctx, R, "turmoil_net::kernel::Kernel::tcp_isn")
+    ctx.floor(R, 2)
+
+
 def run(ctx):
+    r7(ctx)
     r1(ctx)
     r2(ctx)
     r3(ctx)
